@@ -4,6 +4,7 @@ from typing import Optional, ContextManager, Iterator, TextIO
 from exactly_lib.impls.types.string_source.contents.contents_with_cached_path import \
     ContentsWithCachedPathFromWriteToBase
 from exactly_lib.util.file_utils.dir_file_space import DirFileSpace
+from exactly_lib.util.str_ import read_lines
 
 
 class ContentsOfStr(ContentsWithCachedPathFromWriteToBase):
@@ -27,7 +28,7 @@ class ContentsOfStr(ContentsWithCachedPathFromWriteToBase):
     @property
     @contextmanager
     def as_lines(self) -> ContextManager[Iterator[str]]:
-        yield iter(self._contents.splitlines(keepends=True))
+        yield iter(read_lines.split_lines__keep_ends(self._contents))
 
     def write_to(self, output: TextIO):
         output.write(self._contents)
